@@ -1127,6 +1127,90 @@ func vfRunC06Wire(ctx *vfCtx, c vfCaseC06Wire) {
 	}
 }
 
+// ---- decoding into reused values --------------------------------------------------------------------------
+//
+// The filexfer packet types are meant to be decoded into again and again (that is what their hint-reusing
+// byte-slice consumer is for). A value that has decoded other packets before must decode the next one exactly
+// like a fresh value does (seed C06-e): a sequence of generated packets of one kind goes through ONE value,
+// and after every step the value must marshal back to the bytes it was given.
+
+type vfXReusable interface {
+	UnmarshalPacketBody(buf *sshfx.Buffer) error
+	MarshalPacket(reqid uint32, b []byte) (header, payload []byte, err error)
+}
+
+var vfC06ReuseKinds = []struct {
+	Type byte
+	New  func() vfXReusable
+}{
+	{vfFxpData, func() vfXReusable { return &sshfx.DataPacket{} }},
+	{vfFxpWrite, func() vfXReusable { return &sshfx.WritePacket{} }},
+	{vfFxpName, func() vfXReusable { return &sshfx.NamePacket{} }},
+	{vfFxpAttrs, func() vfXReusable { return &sshfx.AttrsPacket{} }},
+	{vfFxpStatus, func() vfXReusable { return &sshfx.StatusPacket{} }},
+	{vfFxpHandle, func() vfXReusable { return &sshfx.HandlePacket{} }},
+	{vfFxpOpen, func() vfXReusable { return &sshfx.OpenPacket{} }},
+	{vfFxpSetstat, func() vfXReusable { return &sshfx.SetstatPacket{} }},
+	{vfFxpRead, func() vfXReusable { return &sshfx.ReadPacket{} }},
+	{vfFxpRename, func() vfXReusable { return &sshfx.RenamePacket{} }},
+}
+
+type vfCaseC06Reuse struct {
+	Kind int // index into vfC06ReuseKinds
+	Seq  []vfPkt
+}
+
+func vfGenC06Reuse(t *rapid.T) vfCaseC06Reuse {
+	c := vfCaseC06Reuse{Kind: rapid.IntRange(0, len(vfC06ReuseKinds)-1).Draw(t, "kind")}
+	ki := vfKindIndexOfType(t, []byte{vfC06ReuseKinds[c.Kind].Type})
+	n := rapid.IntRange(2, 6).Draw(t, "n")
+	for i := 0; i < n; i++ {
+		p := vfGenC06Kind(t, ki, -1).Pkt
+		if p.Type == vfFxpData || p.Type == vfFxpWrite {
+			// long, then short, then in between: lengths that revisit a capacity left behind
+			p.Data = vfPRFBytes(uint32(i+1), 0, rapid.SampledFrom([]int{0, 1, 7, 100, 1024, 4096, 5000}).Draw(t, "dlen"))
+		}
+		c.Seq = append(c.Seq, p)
+	}
+	return c
+}
+
+func vfRunC06Reuse(ctx *vfCtx, c vfCaseC06Reuse) {
+	k := vfC06ReuseKinds[c.Kind%len(vfC06ReuseKinds)]
+	val := k.New()
+	name := vfTypeName(k.Type)
+	ctx.Class("reuse=" + name)
+	grew := false
+	prev := -1
+	for i := range c.Seq {
+		p := &c.Seq[i]
+		if p.Type != k.Type {
+			ctx.Failf("harness/reuse-kind", "packet %d has type %d", i, p.Type)
+		}
+		frame := vfEncode(p)
+		body := frame[4:]
+		if err := val.UnmarshalPacketBody(sshfx.NewBuffer(append([]byte{}, body[5:]...))); err != nil {
+			ctx.Failf("C06/reuse/decode-error/"+name, "a %s value that had decoded %d packets before rejects a valid one: %v\npacket %s", name, i, err, vfHex(frame))
+		}
+		h, pl, err := val.MarshalPacket(p.ID, nil)
+		if err != nil {
+			ctx.Failf("C06/reuse/encode-error/"+name, "%v", err)
+		}
+		back := append(append([]byte{}, h...), pl...)
+		if !bytes.Equal(back, frame) {
+			ctx.Failf("C06/reuse/"+name, "a %s value that had decoded %d packets before decodes the next one differently from a fresh value (first difference at byte %d):\ngiven   %s\ndecoded %s", name, i, vfDiffAt(back, frame), vfHex(frame), vfHex(back))
+		}
+		if n := len(p.Data) + len(p.Names) + len(p.Msg) + len(p.Path); prev >= 0 && n > prev {
+			grew = true
+		} else if prev < 0 || n < prev {
+			prev = n
+		}
+	}
+	if grew {
+		ctx.NonTrivial()
+	}
+}
+
 func TestVerifC06(t *testing.T) {
 	// exhaustive part: every subset of the five attribute flags for every
 	// attribute-bearing packet kind (values drawn from a fixed example seed).
@@ -1154,6 +1238,10 @@ func TestVerifC06(t *testing.T) {
 		})
 	})
 	t.Run("gen", func(t *testing.T) { vfDriveSub(t, "gen", vfPropC06) })
+	t.Run("reuse", func(t *testing.T) {
+		defer vfScaleChecks(10)()
+		vfDriveSub(t, "reuse", vfProp[vfCaseC06Reuse]{ID: "C06", Gen: vfGenC06Reuse, Run: vfRunC06Reuse})
+	})
 	t.Run("wire", func(t *testing.T) {
 		defer vfScaleChecks(40)()
 		vfDriveSub(t, "wire", vfProp[vfCaseC06Wire]{ID: "C06", Gen: vfGenC06Wire, Run: vfRunC06Wire})
